@@ -288,6 +288,16 @@ def _summary(case):
     else:
         src = tl.split_distribution(ignore_node_ages=not ages)
     tgt = case["target"]
+    if case.get("i", 0) % 2 == 0 or route.endswith("+incremental"):
+        # an earlier summarisation with every option the other way round, on a throw-away tree: what a call does is decided by ITS
+        # arguments (defaults included), not by what the same object was asked before
+        other = dict(support_as_percentages=not st.get("support_as_percentages", False),
+                     set_support_as_node_label=not st.get("set_support_as_node_label", False),
+                     support_label_decimals=1, set_edge_lengths="support")
+        try:
+            src.summarize_splits_on_tree(K.build(case["trees"][0], ns, rooted=case["rooted"]), **other)
+        except Exception:  # noqa
+            pass
     if isinstance(tgt, list):
         target = K.build(tgt, ns, rooted=case["rooted"])
         src.summarize_splits_on_tree(target, **st)
